@@ -8,9 +8,9 @@ from worlds import conn, appgen
 ID = "C02"
 LEVEL = "exploration"
 DESIGN_REF = "DESIGN.md §4 C02, Appendix B"
-QUICK_RUNS = 60000
+QUICK_RUNS = 300000
 THOROUGH_MIN_RUNS = 300000
-BATCH = 500
+BATCH = 2000
 CASE_WALL_S = 30.0
 RULE = ("case = 1-3 pipelined client requests (HTTP/1.0|1.1, GET/HEAD/POST/PUT, Connection: close/keep-alive/absent, "
         "Expect) x one generated WSGI program per request (status incl. 204/304, headers with/without Content-Length, "
